@@ -161,22 +161,22 @@ def run_bounded(chk):
     n_eval = 0
     named = corpus.named_convex()
     sets = [(name, pts) for name, pts in named.items() if len(pts) <= 16]
-    sets += [(f"lattice{i}", p) for i, p in enumerate(corpus.lattice_convex_sets(limit=10 if chk.tier == "quick" else 60))]
+    sets += [(f"lattice{i}", p) for i, p in enumerate(corpus.lattice_convex_sets(limit=10 if chk.bounded_tier == "quick" else 60))]
     for name, pts in sets:
         exact = oracle.hull_facets(pts)
         idx = list(range(len(pts)))
         orders = [idx]
-        if len(pts) <= 5 and chk.tier != "quick":
+        if len(pts) <= 5 and chk.bounded_tier != "quick":
             orders = [list(p) for p in itertools.permutations(idx)]
         else:
-            for _ in range(3 if chk.tier == "quick" else 12):
+            for _ in range(3 if chk.bounded_tier == "quick" else 12):
                 q = idx[:]
                 rnd.shuffle(q)
                 orders.append(q)
         for perm in orders:
-            places = corpus.placements()[:2 if chk.tier == "quick" else 4]
+            places = corpus.placements()[:2 if chk.bounded_tier == "quick" else 4]
             if name.startswith(("flat_", "needle_")):
-                places = corpus.far_placements()[:2 if chk.tier == "quick" else 3]
+                places = corpus.far_placements()[:2 if chk.bounded_tier == "quick" else 3]
             for pname, R, t in places:
                 n_eval += 1
                 P = corpus.place([pts[i] for i in perm], R, t)
